@@ -64,10 +64,12 @@ public final class ExactQ {
     // ("#<hex num>/<hex den>"), small ones in decimal so that TLA+ literals like "6" or "-1/2" work.
     // Both forms are canonical: a value has exactly one string.
     private static final int CACHE_MAX = 400_000;
-    private static final java.util.Map<String, Q> CACHE = java.util.Collections.synchronizedMap(
-        new java.util.LinkedHashMap<String, Q>(1 << 16, 0.75f, true) {
-            @Override protected boolean removeEldestEntry(java.util.Map.Entry<String, Q> e) { return size() > CACHE_MAX; }
-        });
+    private static final java.util.concurrent.ConcurrentHashMap<String, Q> CACHE = new java.util.concurrent.ConcurrentHashMap<>(1 << 16);
+
+    private static void remember(String s, Q q) {
+        if (CACHE.size() > CACHE_MAX) CACHE.clear();     // crude bound; entries are cheap to recompute
+        CACHE.put(s, q);
+    }
 
     private static Q parse(Value v) {
         String s = ((StringValue) v).getVal().toString();
@@ -83,7 +85,7 @@ public final class ExactQ {
                 if (i < 0) q = new Q(new BigInteger(s), BigInteger.ONE);
                 else q = new Q(new BigInteger(s.substring(0, i)), new BigInteger(s.substring(i + 1)));
             }
-            CACHE.put(s, q);
+            remember(s, q);
             return q;
         } catch (NumberFormatException e) {
             throw new ArithmeticException("ExactQ: not a rational: \"" + s + "\"");
@@ -97,7 +99,7 @@ public final class ExactQ {
         } else {
             s = "#" + q.n.toString(16) + "/" + q.d.toString(16);
         }
-        CACHE.put(s, q);
+        remember(s, q);
         return new StringValue(s);
     }
 
